@@ -303,7 +303,22 @@ func CopyResult(m map[string]interface{}) map[string]interface{} {
 // given injected data and reports what a caller observes: the rule's entry in the result map (if
 // any), the error, and a panic that escaped the execute call.
 func RunRule(src *builder.RuleBuilder, name string, inject map[string]interface{}) (val interface{}, has bool, err error, panicked interface{}) {
+	// "__withdc": a callback that receives the data context of the run (for injected functions that
+	// inject further names while the rule is running); not itself injected
+	withDc, _ := inject["__withdc"].(func(*context.DataContext))
+	if withDc != nil {
+		cp := map[string]interface{}{}
+		for k, v := range inject {
+			if k != "__withdc" {
+				cp[k] = v
+			}
+		}
+		inject = cp
+	}
 	rb := Fresh(src, nil, inject)
+	if withDc != nil {
+		withDc(rb.Dc)
+	}
 	g := engine.NewGengine()
 	err, panicked = CallGuarded(func() error { return g.ExecuteSelectedRules(rb, []string{name}) })
 	if panicked != nil {
